@@ -119,7 +119,7 @@ fn copy_case_strategy(max_ops: usize, allow_persistent: bool) -> impl Strategy<V
 
 const SIG_LATE: &str = "c07/copy-lacks-entities-created-after-first-commit";
 const SIG_ID_REUSE: &str = "c07/copy-hands-out-deleted-source-id";
-const SIG_EDGE_FILTER: &str = "c07/edge-property-filter-all-or-nothing-differs";
+const SIG_FILTER_PRUNED: &str = "c07/filter-query-pruned-wholesale-on-one-side";
 
 /// What a copy looked like against the model.
 enum CopyVerdict {
@@ -250,10 +250,12 @@ fn check_copies(case: &CopyCase, files: bool) -> CaseResult {
             for (q, a) in ans {
                 let b = ask(c, q);
                 if *a != b {
-                    // Shape of the planner consulting the *node* zone map for an *edge* predicate (C10's finding): the
-                    // filter is pruned wholesale on one side only, depending on which node values ever existed.
+                    // Shape of the planner's zone-map pre-check of a filter (C10's findings: the per-key min/max is not
+                    // narrowed when values are overwritten or deleted, skips incomparable types, ignores NULLs for `<>`,
+                    // and the *node* map is consulted for *edge* predicates): the whole filter is pruned on one side
+                    // only, depending on which values the key ever held — not on the graph.
                     let wholesale = matches!((a, &b), (Answer::Rows(x), Answer::Rows(y)) if x.is_empty() != y.is_empty());
-                    if q.contains(" WHERE r.") && wholesale {
+                    if q.contains(" WHERE ") && wholesale {
                         edge_filter.get_or_insert(format!("{op}: `{q}`: source {a:?}, copy {b:?}"));
                         continue;
                     }
@@ -304,7 +306,7 @@ fn check_copies(case: &CopyCase, files: bool) -> CaseResult {
     let _ = guard("close source", || db.close())?;
 
     if let Some(t) = edge_filter {
-        return fail(SIG_EDGE_FILTER, t);
+        return fail(SIG_FILTER_PRUNED, t);
     }
     if !reused.is_empty() {
         return fail(SIG_ID_REUSE, reused.join("; "));
@@ -359,6 +361,13 @@ fn from_hex(s: &str) -> Vec<u8> {
 
 /// Child-process side: `IMPORT <hex>` → `ERR <msg>` | `OK\t<json problems>\t<json dump>` (a panic is reported by the worker loop).
 pub fn worker(request: &str) -> String {
+    // No backtraces in the child: with RUST_BACKTRACE set in the environment every abort (allocation failure, stack
+    // overflow) would first symbolise a backtrace into the discarded stderr. The child is single-threaded here.
+    static QUIET: std::sync::Once = std::sync::Once::new();
+    QUIET.call_once(|| {
+        // SAFETY: the worker process has exactly one thread (the request loop) when this runs.
+        unsafe { std::env::set_var("RUST_BACKTRACE", "0") };
+    });
     let Some(hex) = request.strip_prefix("IMPORT ") else {
         return "ERR bad request".to_string();
     };
@@ -567,8 +576,12 @@ fn judge_hostile(pool: &WorkerPool, bytes: &[u8]) -> Result<&'static str, Failur
     let mut reply = pool.call(&req, Duration::from_secs(20));
     if reply == Reply::Timeout {
         reply = pool.call(&req, Duration::from_secs(60));
+    }
+    if reply == Reply::Timeout {
+        // a last, very generous attempt, so that a starved machine is not mistaken for a hang
+        reply = pool.call(&req, Duration::from_secs(240));
         if reply == Reply::Timeout {
-            return fail("c07/hostile/hang", format!("import_snapshot did not return within 60 s on {} bytes: {}", bytes.len(), to_hex(bytes)));
+            return fail("c07/hostile/hang", format!("import_snapshot did not return within 20 s, 60 s and 240 s (fresh process each time) on {} bytes: {}", bytes.len(), to_hex(bytes)));
         }
     }
     let line = match reply {
@@ -670,8 +683,15 @@ fn base_bytes(h: &Hist) -> Result<Vec<u8>, Failure> {
 #[derive(Clone, Debug, Serialize, Deserialize)]
 pub struct ExhCase {
     pub base: Hist,
-    /// byte position: the 8 single-bit flips of this byte, and the truncation to this many bytes
+    /// first byte position: the 8 single-bit flips of the byte, and the truncation to this many bytes
     pub pos: u32,
+    /// number of consecutive positions covered by this case (1 in the quick tier)
+    #[serde(default = "one")]
+    pub span: u32,
+}
+
+fn one() -> u32 {
+    1
 }
 
 /// Memo of `base_bytes` (a pure function of the history) for the enumerated sub-check, which visits every byte
@@ -689,22 +709,25 @@ fn check_exhaustive(pool: &WorkerPool, memo: &BaseMemo, c: &ExhCase) -> CaseResu
             b
         }
     };
-    let pos = c.pos as usize;
-    if pos >= bytes.len() {
-        return ok(false, "beyond-end", hash_of(&(pos, &bytes)));
+    if c.pos as usize >= bytes.len() {
+        return ok(false, "beyond-end", hash_of(&(c.pos, &bytes)));
     }
     let mut failures: Vec<Failure> = Vec::new();
     let mut accepted = 0;
-    match judge_hostile(pool, &bytes[..pos]) {
-        Ok(_) => {}
-        Err(f) => failures.push(f),
-    }
-    for bit in 0..8 {
-        let mut b = bytes.clone();
-        b[pos] ^= 1 << bit;
-        match judge_hostile(pool, &b) {
-            Ok(cl) => accepted += usize::from(cl.starts_with("accepted")),
+    let mut flips = 0;
+    for pos in (c.pos as usize)..((c.pos + c.span.max(1)) as usize).min(bytes.len()) {
+        match judge_hostile(pool, &bytes[..pos]) {
+            Ok(_) => {}
             Err(f) => failures.push(f),
+        }
+        for bit in 0..8 {
+            let mut b = bytes.clone();
+            b[pos] ^= 1 << bit;
+            flips += 1;
+            match judge_hostile(pool, &b) {
+                Ok(cl) => accepted += usize::from(cl.starts_with("accepted")),
+                Err(f) => failures.push(f),
+            }
         }
     }
     if !failures.is_empty() {
@@ -713,7 +736,7 @@ fn check_exhaustive(pool: &WorkerPool, memo: &BaseMemo, c: &ExhCase) -> CaseResu
         let f = failures.iter().find(|f| !narrow.contains(&f.signature.as_str())).unwrap_or(&failures[0]);
         return Err(f.clone());
     }
-    ok(true, if accepted == 0 { "all-rejected" } else if accepted == 8 { "flips-all-readable" } else { "mixed" }, hash_of(&(pos, &bytes)))
+    ok(true, if accepted == 0 { "all-rejected" } else if accepted == flips { "flips-all-readable" } else { "mixed" }, hash_of(&(c.pos, c.span, &bytes)))
 }
 
 #[derive(Clone, Debug, Serialize, Deserialize)]
@@ -890,16 +913,9 @@ fn apply_mutation(c: &GenCase, base: &[u8]) -> Result<(Vec<u8>, &'static str), F
 }
 
 fn check_gen(pool: &WorkerPool, c: &GenCase) -> CaseResult {
-    let t0 = std::time::Instant::now();
     let base = base_bytes(&c.base)?;
-    let t1 = t0.elapsed();
     let (bytes, mclass) = apply_mutation(c, &base)?;
-    let t2 = t0.elapsed();
-    let outcome = judge_hostile(pool, &bytes);
-    if std::env::var("C07_TIMING").is_ok() {
-        eprintln!("TIMING {mclass} base={t1:?} mut={t2:?} judge={:?} len={}", t0.elapsed(), bytes.len());
-    }
-    let outcome = outcome?;
+    let outcome = judge_hostile(pool, &bytes)?;
     let close = bytes.len() == base.len() && bytes.iter().zip(&base).map(|(a, b)| (a ^ b).count_ones()).sum::<u32>() <= 8 && bytes != base;
     let prefix = bytes.len() < base.len() && base.starts_with(&bytes);
     ok(close || prefix, format!("{mclass}:{outcome}"), hash_of(&bytes))
@@ -953,8 +969,8 @@ pub fn run(r: &mut Run) {
     r.assumptions.push("hostile imports run in child processes limited to 8 GiB of address space (valid inputs of this size need < 100 MiB)".into());
 
     let max_ops = if r.is_thorough() { 60 } else { 28 };
-    r.subcheck("copies_memory", r.cases(6000, 200_000), || copy_case_strategy(max_ops, false), |c: &CopyCase| check_copies(c, false));
-    r.subcheck("copies_files", r.cases(400, 12_000), || copy_case_strategy(max_ops, true), |c: &CopyCase| check_copies(c, true));
+    r.subcheck("copies_memory", r.cases(6000, 600_000), || copy_case_strategy(max_ops, false), |c: &CopyCase| check_copies(c, false));
+    r.subcheck("copies_files", r.cases(400, 30_000), || copy_case_strategy(max_ops, true), |c: &CopyCase| check_copies(c, true));
 
     let pool = WorkerPool::new("c07", 8 << 30);
     let n_bases = if r.is_thorough() { 150 } else { 20 };
@@ -968,8 +984,9 @@ pub fn run(r: &mut Run) {
         if len > 4096 {
             continue;
         }
-        for pos in 0..len as u32 {
-            items.push(ExhCase { base: base.clone(), pos });
+        let span = if r.is_thorough() { 8 } else { 1 };
+        for pos in (0..len as u32).step_by(span as usize) {
+            items.push(ExhCase { base: base.clone(), pos, span });
         }
     }
     let memo: BaseMemo = std::sync::Mutex::new(BTreeMap::new());
@@ -977,7 +994,7 @@ pub fn run(r: &mut Run) {
 
     r.subcheck(
         "hostile_gen",
-        r.cases(8000, 400_000),
+        r.cases(8000, 150_000),
         || (hist::small_hist_strategy(), hist::small_hist_strategy(), mutation()).prop_map(|(base, other, m)| GenCase { base, other, m }),
         |c: &GenCase| check_gen(&pool, c),
     );
